@@ -354,8 +354,9 @@ void do_printf_ints(S &sink, char t, format_options opts,
 	case 'b':
 	case 'B' : {
 		auto print = [&] (auto number) {
+			const char *prefix = nullptr;
 			if (number && opts.alt_conversion)
-				sink.append(t == 'b' ? "0b" : "0B");
+				prefix = t == 'b' ? "0b" : "0B";
 
 			if(opts.precision && *opts.precision == 0 && !number) {
 				// print nothing in this case
@@ -363,7 +364,7 @@ void do_printf_ints(S &sink, char t, format_options opts,
 				_fmt_basics::print_int(sink, number, 2, opts.minimum_width,
 						opts.precision ? *opts.precision : 1, zero_fill ? '0' : ' ',
 						opts.left_justify, false, false, false,
-						false, locale_opts);
+						false, locale_opts, prefix);
 			}
 		};
 
@@ -386,14 +387,22 @@ void do_printf_ints(S &sink, char t, format_options opts,
 	} break;
 	case 'o': {
 		auto print = [&] (auto number) {
-			if (number && opts.alt_conversion)
-				sink.append('0');
+			int precision = opts.precision ? *opts.precision : 1;
+			if (opts.alt_conversion) {
+				// The alternate form increases the precision, if and only if necessary,
+				// to force the first digit of the result to be a zero.
+				int num_digits = 0;
+				for (auto n = number; n; n /= 8)
+					num_digits++;
+				if (number && precision <= num_digits)
+					precision = num_digits + 1;
+			}
 
 			if(opts.precision && *opts.precision == 0 && !number) {
 				// print nothing in this case
 			}else{
 				_fmt_basics::print_int(sink, number, 8, opts.minimum_width,
-						opts.precision ? *opts.precision : 1, zero_fill ? '0' : ' ',
+						precision, zero_fill ? '0' : ' ',
 						opts.left_justify, false, false, false,
 						false, locale_opts);
 			}
@@ -419,8 +428,9 @@ void do_printf_ints(S &sink, char t, format_options opts,
 	case 'x':
 	case 'X': {
 		auto print = [&] (auto number) {
+			const char *prefix = nullptr;
 			if (number && opts.alt_conversion)
-				sink.append(t == 'x' ? "0x" : "0X");
+				prefix = t == 'x' ? "0x" : "0X";
 
 			if(opts.precision && *opts.precision == 0 && !number) {
 				// print nothing in this case
@@ -428,7 +438,7 @@ void do_printf_ints(S &sink, char t, format_options opts,
 				_fmt_basics::print_int(sink, number, 16, opts.minimum_width,
 						opts.precision ? *opts.precision : 1, zero_fill ? '0' : ' ',
 						opts.left_justify, false, false, false,
-						t == 'X', locale_opts);
+						t == 'X', locale_opts, prefix);
 			}
 		};
 
